@@ -132,6 +132,49 @@ PROPS = {
             "C09: estimator contents are modelled as lists of sample ids (which draws are inside), not their numeric values; that both estimators (two running-variance pairs / deque with background_split) realise exactly these contents is checked through their counts on every draw",
         ],
     },
+    "C15": {
+        "gen": [],
+        "thm_module": "NutsModel.Thm.C15",
+        "namespace": "NutsModel.C15",
+        "theorems": ["store_sound", "flush_complete", "finalize_complete", "flushed_data_stable",
+                     "crash_after_flush_loses_only_tail", "defined_stays_defined", "buffer_bounded", "not_sound_without_monotone"],
+        "harness": "C15",
+        "level": "proof",
+        "rule": ("real ZarrConfig (MemoryStore and FilesystemStore re-opened with a fresh store object) and ZarrAsyncConfig (tokio, "
+                 "sync-to-async adapter) driven by a real chain exactly as the sampler's chain loop does; chunk sizes {1,2,3,7,10,100} "
+                 "against num_tune in {0, chunk, chunk+1, 2chunk-1, random} and num_draws in {0,1,chunk,chunk+1,random}; three presets; "
+                 "1..3 chains (a non-zero chain index is driven); divergences from periodic recoverable faults. After EVERY draw (or "
+                 "every third) flush() is called and a fresh reader must return, for every statistic and draw variable incl. string and "
+                 "event arrays, exactly the values recorded so far (bit patterns); then finalize and read everything again. The op "
+                 "sequences of an always-present, a divergence-event and an update-event statistic are replayed by Model/ZarrStore.lean. "
+                 "distinct_nontrivial = runs whose num_tune is not a multiple of the chunk size and where values were read back."),
+        "trusted": [
+            "C15: proved for Model/ZarrStore.lean (every value type, every chunk size >= 1, every op sequence with tuning flags true..true false..false): the store never holds a wrong value; immediately after flush (and after finalize) every recorded value of both arrays is readable; readable cells stay readable with the same value under any later ops (so a crash after a flush loses only the unflushed tail); a machine-checked counterexample shows the monotone-tuning hypothesis is necessary",
+            "C15: the model covers one variable of one chain with abstract values; zarrs store/retrieve semantics (store_chunk / store_chunk_subset / string subset overwrite the addressed region) are assumed and checked by reading back every value at every flush point; async completion order is exercised on a multi-threaded runtime, not enumerated",
+        ],
+    },
+    "C18": {
+        "gen": [],
+        "thm_module": "NutsModel.Thm.C18",
+        "namespace": "NutsModel.C18",
+        "theorems": ["inv_init", "inv_step", "halving_time_conserved", "steps_eq_base_add_retries", "steps_ge_base", "steps_eq_iff",
+                     "all_ok_steps", "no_underflow", "no_underflow_reachable", "factor_bound", "diverged_only_at_budget",
+                     "mu_decreases", "loop_terminates", "esh_raw_norm", "esh_unit_norm", "normalize_unit_norm", "esh_delta_ke",
+                     "esh_update_explicit"],
+        "harness": ["C18", "C17"],
+        "level": "proof",
+        "rule": ("real Diag/LowRank MCLMC chains, dimensions 2..31, step sizes, decoherence lengths, subsample frequencies {1, .5, .37, "
+                 ".1, 0}, three trajectory kinds, dynamic step size on/off; recoverable density faults injected at chosen evaluation "
+                 "indices (isolated, bursts that exhaust the 10 halvings, clusters) so that the outcome of every leapfrog is known; per "
+                 "draw the outcome list is replayed by the step-loop model (steps taken, divergence or not, number of evaluations). Direct "
+                 "oracle: unit-norm momentum after every microcanonical draw (hook accessor), num_steps = max(1, round(f L / eps)) without "
+                 "divergence, divergent draws keep the position, evaluations = steps + failed leapfrogs. The ESH update itself is "
+                 "compared with the closed form by the C17 kernel records (esh). distinct_nontrivial = draws with >= 1 failed leapfrog."),
+        "trusted": [
+            "C18: proved: time accounting invariant of the halving loop (total integrated time = num_base_steps * eps at normal exit, stack empty, factor back to 1), steps = base steps + retries, >= base steps (the assert cannot fire), no underflow of prev_remaining - 1, stack depth <= max_halvings, a divergence is reported only with the halving budget exhausted, termination by a decreasing measure; over R: closed form of the ESH raw norm, unit norm after the update for every step of either sign (n >= 2, unit p, g != 0), unit norm after normalize, returned kinetic-energy change = documented closed form",
+            "C18: the loop model abstracts each leapfrog to ok/diverge/err; partial momentum refresh, the trajectory switch and the fresh momentum after a divergent draw are checked on real runs (unit norm, position unchanged), not modelled",
+        ],
+    },
     "C16": {
         "gen": ["Schema"],
         "thm_module": "NutsModel.Thm.C16",
